@@ -19,7 +19,10 @@ Check == LET c == Cases[tidx]
              T == TreeOf(c.nodes)
              inp == InOf(c.input)
              seen == ResOf(c.obs)
-         IN /\ (seen = Select(T, inp)) \/ Say(tidx, IF DcfSubSettings(inp) THEN "ref-dcf" ELSE IF CfgKeyNamesOther(inp) /\ seen = AlgSelect(T, inp) THEN "ref-dev-as-alg" ELSE "ref")
-            /\ (seen = AlgSelect(T, inp)) \/ DcfSubSettings(inp) \/ Say(tidx, "alg")
+             dcfne == DcfSubSettings(inp) /\ ~DcfOpaque(T, inp)     \* default config file with sub-command content, transcribed part of the class
+         IN /\ (seen = Select(T, inp)) \/ Say(tidx, IF DcfOpaque(T, inp) THEN "ref-dcf"
+                                                    ELSE IF dcfne /\ seen = AlgSelectDcf(T, inp) THEN (IF DcfFirstSectionOnly(T, inp) THEN "ref-dcf-first" ELSE "ref-dcf-key")
+                                                    ELSE IF ~dcfne /\ CfgKeyNamesOther(inp) /\ seen = AlgSelect(T, inp) THEN "ref-dev-as-alg" ELSE "ref")
+            /\ (seen = (IF inp.dcf THEN AlgSelectDcf(T, inp) ELSE AlgSelect(T, inp))) \/ DcfOpaque(T, inp) \/ Say(tidx, "alg")
 Inv == Check \/ TRUE
 =============================================================================
